@@ -3,6 +3,7 @@ from collections.abc import Callable
 from dataclasses import replace as dataclass_replace
 from enum import Enum
 from threading import Thread, Lock, Event, Timer
+import threading
 from typing import Union, cast
 import math
 import random
@@ -512,6 +513,10 @@ class Router:
         with self._cbf_lock:
             if cbf_key not in self._cbf_buffer:
                 return  # duplicate already arrived and discarded us
+            expired = threading.current_thread()
+            if isinstance(expired, threading.Timer) and self._cbf_buffer[cbf_key] is not expired:
+                # this timer was cancelled after it had fired; the entry belongs to a newer copy
+                return
             del self._cbf_buffer[cbf_key]
         try:
             if self.link_layer:
